@@ -27,9 +27,10 @@ def sqrtRemPrimFrontier (x : Nat) : Nat × Nat := let s := iroot x 2; (s, x - s 
 def sqrtRemKernelFrontier (a : Nat) : Nat × Nat := let s := iroot a 2; (s, a - s * s)
 
 /-- `sqrt_rem_large(words, root_only)` with the kernel as a parameter.
-    `fixed = true` is what the property requires (remainder shifted by one whole word when
-    `shift ≥ WORD_BITS`); `fixed = false` mirrors the code as written (`shift > WORD_BITS`, so that
-    for `shift == WORD_BITS` the remainder is shifted by `shift % WORD_BITS = 0` bits). -/
+    `fixed = true` mirrors the current code (remainder shifted by one whole word when
+    `shift ≥ WORD_BITS`, since /repo 26bd959); `fixed = false` is the code before that commit
+    (`shift > WORD_BITS`: for `shift == WORD_BITS` the remainder was shifted by `shift % WORD_BITS = 0`
+    bits) and is kept for the regression theorem. -/
 def sqrtRemLarge (W : Nat) (kernel : Nat → Nat × Nat) (fixed : Bool) (x : Nat) : Nat × Nat :=
   let len := wordLen W x
   let lz := W * len - bitLen x                     -- leading zeros of the top word
@@ -78,8 +79,8 @@ def nthRootNewton (x n : Nat) (fuel : Nat) : Nat :=
   let (guess, fix) := newtonUp x n fuel guess fix
   (newtonDown x n fuel guess fix).1
 
-/-- `TypedReprRef::nth_root`.  `fixed = false` mirrors the `bits <= n ⇒ 1` shortcut as written
-    (which also catches the radicand 0); `fixed = true` returns 0 for 0. -/
+/-- `TypedReprRef::nth_root`.  `fixed = true` mirrors the current code (radicand 0 ⇒ 0, since /repo 77711bb);
+    `fixed = false` is the earlier `bits <= n ⇒ 1` shortcut that also caught 0 (regression theorem). -/
 def nthRootRepr (W : Nat) (fixed : Bool) (x n : Nat) : Except PanicKind Nat :=
   match n with
   | 0 => .error .rootZeroth
@@ -107,9 +108,8 @@ def nthRootInt (W : Nat) (fixed : Bool) (x : Int) (n : Nat) : Except PanicKind I
 def sqrtInt (W : Nat) (x : Int) : Except PanicKind Nat :=
   if x < 0 then .error .rootNegative else .ok (sqrtRepr W x.natAbs)
 
-/-- `CubicRoot for IBig`.  As written (`fixed = false`) it panics with `RootNegative` for every
-    negative input although the cube root of a negative integer is real (and `nth_root(3)` returns
-    it); `fixed = true` is what the property requires. -/
+/-- `CubicRoot for IBig`.  `fixed = true` mirrors the current code (since /repo 44dc3ca); before (`fixed = false`)
+    it panicked with `RootNegative` for every negative input although `nth_root(3)` returned the root. -/
 def cbrtInt (W : Nat) (fixed : Bool) (x : Int) : Except PanicKind Int :=
   if x < 0 ∧ !fixed then .error .rootNegative
   else match nthRootRepr W fixed x.natAbs 3 with
